@@ -594,6 +594,10 @@ class PNoRepeats(Pattern):
     def __repr__(self):
         return ("PNoRepeats(%s)" % repr(self.input))
 
+    def reset(self):
+        super().reset()
+        self.value = sys.maxsize
+
     def __next__(self):
         rv = sys.maxsize
         while rv == self.value or rv == sys.maxsize:
